@@ -16,7 +16,7 @@ func init() {
 	domains["output"] = domain{runOutput,
 		"byte strings over {a,b,newline,CR,space,'[',']','%'} cut into random chunks (empty chunks, partial lines, no trailing newline, empty output) " +
 			"written through the real prefixed / group writers into a sink that records every Write; single-writer cases compare the exact sink " +
-			"blocks, concurrent cases (2–4 writers in goroutines, distinct prefixes / begin markers) must be an interleaving of the writers' atomic " +
+			"blocks, concurrent cases (2–4 writers in goroutines, distinct prefixes / begin markers, or one shared prefix with writer-specific line content) must be an interleaving of the writers' atomic " +
 			"blocks. non-trivial = more than one chunk and at least one line split across chunks, or a concurrent case; distinct by content+chunking"}
 }
 
@@ -291,8 +291,30 @@ func runOutput(c *Ctx) {
 		var ws []outWriter
 		// one output style per run, as in a Taskfile (the style is global)
 		kind := []string{"p", "g"}[c.Rng.Intn(2)]
+		// prefixed: a third of the runs give every writer the SAME prefix (two tasks with one `prefix:`, or one task
+		// running twice in parallel): each command still has its own line buffer, so no line of one may be completed,
+		// flushed or cut by another.  Their lines are non-empty and use writer-specific letters, so that the blocks of
+		// different writers stay distinguishable for the acceptor.
+		samePrefix := kind == "p" && c.Rng.Intn(3) == 0
 		for j := 0; j < k; j++ {
 			w := c.genWriter(j, kind)
+			if samePrefix {
+				var sb strings.Builder
+				for l := 1 + c.Rng.Intn(4); l > 0; l-- {
+					sb.WriteString(strings.Repeat(string(rune('a'+2*j+c.Rng.Intn(2))), 1+c.Rng.Intn(5)))
+					if l > 1 || c.Rng.Intn(2) == 0 {
+						sb.WriteString("\n")
+					}
+				}
+				w = outWriter{Kind: "p", Prefix: "same", Chunks: c.chunk(sb.String())}
+				if c.Rng.Intn(2) == 0 {
+					w.Err = make([]bool, len(w.Chunks))
+					for i := range w.Err {
+						w.Err[i] = c.Rng.Intn(3) == 0
+					}
+				}
+				c.Hit("same-prefix")
+			}
 			if kind == "g" && w.Begin == "" {
 				// keep group blocks of different writers distinguishable
 				w.Chunks = append([]string{fmt.Sprintf("<%d>", j)}, w.Chunks...)
